@@ -94,6 +94,24 @@ CHECKS = {
               'different lengths.'),
         design_ref='DESIGN.md sections 3.4, 3.5, 4 C14',
         note='Scripted samples replace numpy draws inside the Monte-Carlo module only; open known findings listed in known_findings.json.'),
+    'C11': dict(
+        engine='xplore',
+        technique='bounded exhaustive exploration of run pairs (metamorphic relations) on the real pipeline over the complete economic-model x end-use grid',
+        category='exploration',
+        text=('Linear scaling of every levelized cost under k-scaling of all cost inputs (k in {0.5,2,3}); price moves leave levelized costs '
+              'bit-identical and move NPV strictly with the price series when the product is sold; efficiency halving doubles LCOH; seven '
+              'neutral elements change no output and no report line outside the extended block.'),
+        design_ref='DESIGN.md section 4 C11',
+        note='Each run of a pair executes in its own pristine child; price direction derived from price_ref.'),
+    'C18': dict(
+        engine='xplore',
+        technique='bounded exhaustive exploration: all ordered pairs over ordered alphabets of the varied parameter (reservoir level, end to end and function level)',
+        category='exploration',
+        text=('Weak monotonicity for every ordered pair: bottom-hole temperature vs gradients/depth, model-4 reservoir temperature vs drawdown rate at '
+              'every step, initial production temperature vs flow, well cost vs depth (17 correlations, real cost function, 260 depths per regime), '
+              'NPV / levelized costs vs ~25 cost inputs and factors.'),
+        design_ref='DESIGN.md section 4 C18',
+        note='Clause (b) with redrilling disabled; levelized-cost clause only where yearly energy is positive.'),
 }
 
 
@@ -124,7 +142,7 @@ def manifest():
             'enable': 'checks export GEOPHIRES_X_VERIF=1 (bin/check) and import /repo/src directly; no build step',
             'baseline_off_cmd': BASELINE,
             'source_commits': ['b900803'],
-            'fix_commits': ['83ef652', '14ba6d3', '02fd4ac'],
+            'fix_commits': ['83ef652', '14ba6d3', '02fd4ac', 'a169dc6'],
             'add_only': True,
         },
         'engines': [
